@@ -74,6 +74,32 @@ def missing_values_discipline(ctx: Ctx, rule: str):
 
 
 
+def check_registered_symbols(ctx: Ctx, rule: str):
+    """gather_atoms registers, for each of the four kinds of atom, symbols[atom.name] = atom.symbol - the atom's *own*
+    symbol object: expressions are built from this table, and the substitution tables of the schemes and of rhs_matrix are
+    keyed by atom.symbol, so a look-alike (a fresh Symbol of the same name without the assumptions) is never found."""
+    from sa import av as _av
+
+    from . import odemodel
+
+    sm = ctx.sm
+    ga = sm.func("ode.py", "gather_atoms")
+    gf = odemodel.gather_fields(ctx)
+    if gf is None or not gf["symbols"].get("_understood"):
+        ctx.undecided(rule, ga.key("symbols-of-all-kinds"), "how gather_atoms registers symbols is not understood", ga.where())
+    else:
+        good = 0
+        for attr in odemodel.KINDS:
+            recs = gf["symbols"].get(attr, [])
+            if len(recs) == 1:
+                d, item = recs[0]
+                bv = ("bv", d)
+                if item == ("kv", ("attr", bv, "name"), ("attr", bv, "symbol")):
+                    good += 1
+        ctx.check(good == 4, rule, ga.key("symbols-of-all-kinds"), "parameters, states, intermediates and state derivatives are defined symbols", f"gather_atoms registers symbols[name] = atom.symbol for {good} of the 4 atom kinds", ga.where())
+
+
+
 def run(ctx: Ctx):
     sm = ctx.sm
     ctx.assume("numerical agreement of the sub-models with the full model is NOT decided")
@@ -108,20 +134,7 @@ def run(ctx: Ctx):
         src = odemodel.field_of(base, 2)
         okb = src is not None and "time" in extra and extra["time"] in (env_.get("self.t"), ("call", "sympy.Symbol", (_av.C("t"),), ()))
         ctx.check(okb, "R13.a", oi.key("symbols"), "ODE.symbols = every atom of the components + time", f"ODE.__init__ stores symbols as {_av.show(symv)[:100]}, not the symbols gathered from the components plus `time`", oi.where())
-    ga = sm.func("ode.py", "gather_atoms")
-    gf = odemodel.gather_fields(ctx)
-    if gf is None or not gf["symbols"].get("_understood"):
-        ctx.undecided("R13.a", ga.key("symbols-of-all-kinds"), "how gather_atoms registers symbols is not understood", ga.where())
-    else:
-        good = 0
-        for attr in odemodel.KINDS:
-            recs = gf["symbols"].get(attr, [])
-            if len(recs) == 1:
-                d, item = recs[0]
-                bv = ("bv", d)
-                if item == ("kv", ("attr", bv, "name"), ("attr", bv, "symbol")):
-                    good += 1
-        ctx.check(good == 4, "R13.a", ga.key("symbols-of-all-kinds"), "parameters, states, intermediates and state derivatives are defined symbols", f"gather_atoms registers symbols[name] = atom.symbol for {good} of the 4 atom kinds", ga.where())
+    check_registered_symbols(ctx, "R13.a")
 
     ctx.rule("R13.b", "sibling agreement: rhs, monitor_values, missing_values and scheme all unpack the missing variables, append the formal under the same condition and hand the block to the template; both python templates splice it before the body", floor=16)
 
